@@ -150,6 +150,17 @@ Theorem C14_pyimport_rebinds : forall k v stepns imports_before,
 Proof. intros k v d c. exact (ns_get_update_in k v d c). Qed.
 Print Assumptions C14_pyimport_rebinds.
 
+(** a pyimport step merges ALL its names into the imports namespace, also those a context key hides at
+    that moment: when the key goes away the import is what a !py reads, from any scope *)
+Theorem C14_import_survives_hidden_key : forall E k v stepns s,
+  gk E = GChain -> cls E = false -> find_local k (frames s) false = LNotLocal ->
+  ns_get k (scr s) = None -> NoDup (ns_keys (ctx s)) -> NoDup (ns_keys stepns) ->
+  ns_get k stepns = Some v ->
+  let s' := set_ctx (ns_del k (ctx s)) (set_imps (ns_update (imps s) stepns) s) in
+  load_var E k s' = (Ok v, s').
+Proof. exact import_survives_hidden_key. Qed.
+Print Assumptions C14_import_survives_hidden_key.
+
 (** * eval cannot leak (after the repair e6daded of Context.get_eval_string)
 
     For EVERY expression of the fragment — assignment expressions at module level, in lambdas, in
@@ -295,4 +306,16 @@ Example C14_fromlist_nonvacuous :
     [ XList [N "TOP"; N "ONLY"; XAttr (N "sub") "TOP"] ]
   = Some (mk_obs [Ok (CList 1000 [CInt 1; CInt 11; CStr "sub-top"])] [("a", CInt 1)]
            [("sub", CMod "pkg.sub"); ("TOP", CInt 1); ("ONLY", CInt 11)] []).
+Proof. vm_compute. reflexivity. Qed.
+
+(** context has a key [gcd] when `from math import gcd` runs: the key wins while it is there, the
+    import is read once it is dropped — at module level, in a lambda, in a comprehension *)
+Example C14_import_survives_hidden_key_nonvacuous :
+  session_case_ld std_mods std_builtins [] 1 h1 [("gcd", PInt 5); ("lst", PRef 0)]
+    [ AImport [SFrom "math" "gcd" "gcd"]; AEval (N "gcd"); ADrop "gcd";
+      AEval (XCall (N "gcd") [XInt 4; XInt 6]); AEval (XLam [] (N "gcd") []);
+      AEval (XComp (XCall (N "gcd") [N "x"; XInt 4]) [("x", N "lst")]) ]
+  = Some (mk_obs
+      [ Ok (CInt 5); Ok (CInt 2); Ok (CNative "math.gcd"); Ok (CList 1000 [CInt 1; CInt 2]) ]
+      [("lst", CList 0 [CInt 1; CInt 2])] [("gcd", CNative "math.gcd")] []).
 Proof. vm_compute. reflexivity. Qed.
